@@ -776,12 +776,11 @@ class _Namespaces:
     def __delitem__(self, prefix):
         """deletes CSSNamespaceRule(s) with rule.prefix == prefix"""
         delrule = self.__findrule(prefix)
-        for i, rule in enumerate(
-            filter(lambda r: r.type == r.NAMESPACE_RULE, self.parentStyleSheet.cssRules)
-        ):
-            if rule == delrule:
-                self.parentStyleSheet.deleteRule(i)
-                return
+        if delrule is not None:
+            # delete the rule itself: its index among the @namespace rules
+            # is not its index in cssRules (@charset, @import, comments)
+            self.parentStyleSheet.deleteRule(delrule)
+            return
 
         self._log.error('Prefix %s not found.' % prefix, error=xml.dom.NamespaceErr)
 
